@@ -34,13 +34,18 @@ def main():
     ours, theirs = load_at("HEAD"), load_at(br)
     r = git("merge", "--no-edit", br, check=False)
     print(r.stdout[-2000:], r.stderr[-2000:])
-    merged, seen = [], set()
-    for f in ours + theirs:
-        k = key(f)
-        if k in seen:
-            continue
-        seen.add(k)
-        merged.append(f)
+    # the branch is authoritative for the entries of the properties it owns (status updates!)
+    own = {"c01": ["C01", "C02", "C03"]}.get(br, [br.upper()])
+    mine = [f for f in theirs if f.get("property") in own]
+    commits = {f.get("commit") for f in mine}
+    keep = [f for f in ours if f.get("property") not in own
+            or (f.get("status") == "fixed" and not f.get("id") and f.get("commit") not in commits)]
+    if not mine:
+        keep = ours
+    merged = keep + mine
+    for f in merged:
+        if f.get("status") == "fixed" and f.get("commit"):
+            f["record"] = f"fixed: property={f['property']} {f['commit']} {f.get('what', '')}"
     with open(os.path.join(HERE, "known_findings.json"), "w") as fh:
         json.dump({"findings": merged}, fh, indent=1)
         fh.write("\n")
